@@ -524,6 +524,15 @@ func (e *specEnv) evalCall(n ECall) Val {
 		a := e.st.addrOfPtr(v)
 		_ = p
 		return e.st.loadFrom(e.heap, a, p.Elem())
+	case "called":
+		// called(f): on this path a call of a function / method named f has happened (exact: paths are explored one by one)
+		if e.st == nil || len(n.Args) != 1 {
+			e.fail("called(name) needs a path state")
+		}
+		if e.st.called[exprString(n.Args[0])] {
+			return Val{S: "true", Sort: "Bool"}
+		}
+		return Val{S: "false", Sort: "Bool"}
 	case "contains":
 		a, b := e.eval(n.Args[0]), e.eval(n.Args[1])
 		return Val{S: "(str.contains " + a.S + " " + b.S + ")", Sort: "Bool"}
